@@ -37,12 +37,18 @@ def run(ck):
     per = 8 if thorough else 6
     jobs, meta = [], {}
     jid = 0
+    plan = []
     for t in range(ntrees):
         tree, m = gen.gen_tree(rng)
         for _ in range(per):
-            p = gen.gen_path(rng, m, malformed=rng.random() < 0.18)
-            nf = rng.random() < 0.4
-            nosym = rng.random() < 0.25
+            plan.append((tree, gen.gen_path(rng, m, malformed=rng.random() < 0.18), rng.random() < 0.4, rng.random() < 0.25))
+    # the link budgets' boundaries, always: chains of exactly k links for k around 40 and around the library's own constant
+    for tree, p, n in gen.link_budget_cases():
+        plan.append((tree, p, False, False))
+        if "/" not in p:
+            plan.append((tree, p, True, False))
+    for tree, p, nf, nosym in plan:
+        if True:
             base = jid
             case = {"tree": tree, "path": p, "nf": nf, "nosym": nosym}
             jid += 1
@@ -73,7 +79,25 @@ def run(ck):
         tag = ",".join(deny) or "none"
         _, results, errs = run_driver_parallel(jobs, deny=deny, tag="c01" + tag)
         res[tag] = results
-    stats = {"cases": 0, "kernel_vs_model": 0, "lib_vs_kernel": 0, "emu_vs_model": 0, "known_FH": 0, "outcomes": {}, "readlink": 0, "open": 0}
+    # Answers that the kernel gives only because the machine is busy are asked for again, alone: under concurrent renames
+    # (other shards, other processes) the kernel's walk answers EAGAIN and -- starting over after a failed RCU walk with its link
+    # counter not reset -- ELOOP for lookups it resolves when nothing else is going on.  Deterministic answers stay what they are.
+    def transient(r):
+        e = (r or {}).get("res", {}).get("err", {})
+        return e.get("errno") in (40, 11) or e.get("kind") == "SafetyViolation"
+    byid_jobs = {j["id"]: j for j in jobs}
+    again = []
+    for case in meta.values():
+        ids = [case[k] for k in ("lib", "raw", "readlink", "open", "rawopen")]
+        if any(transient(res[t].get(i)) for t in res for i in ids):
+            again += [byid_jobs[i] for i in ids]
+    if again:
+        for deny in ((), ("openat2",)):
+            tag = ",".join(deny) or "none"
+            _, results, errs = run_driver_parallel(again, deny=deny, tag="c01r" + tag, shards=1)
+            res[tag].update(results)
+    stats = {"cases": 0, "kernel_vs_model": 0, "lib_vs_kernel": 0, "emu_vs_model": 0, "known_FH": 0, "outcomes": {}, "readlink": 0, "open": 0,
+             "asked_again_alone": len(again)}
     nontrivial = set()
     samples = []
     cases = []
@@ -158,8 +182,10 @@ def run(ck):
         mk, idmap = F.tree_to_mkops(case["tree"], raw.get("build_errs", []))
         pb = cb(case["path"].encode("latin1").hex())
         nf, ns = ("true" if case["nf"] else "false"), ("true" if case["nosym"] else "false")
+        # the one-shot open follows a trailing link unless O_NOFOLLOW was asked for: its own walk mode
+        nfo = "true" if case["oflags"] & O["NOFOLLOW"] else "false"
         term = (f"let s := build {mk} in enc_wres (kwalk s {pb} {nf} {ns}) ++ enc_wres (ewalk s {pb} {nf} {ns}) "
-                f"++ [if wf_b s then 1%Z else 0%Z]")
+                f"++ [if wf_b s then 1%Z else 0%Z] ++ enc_wres (kwalk s {pb} {nfo} {ns}) ++ enc_wres (ewalk s {pb} {nfo} {ns})")
         cases.append((len(cases), term, o_raw, o_e, idmap, desc, emu_differs, open_pending))
         tr = libe.get("trace")
         if tr:
@@ -173,7 +199,7 @@ def run(ck):
             ck.violation("T2: Coq evaluation of the model cases failed", {"log": cerrs[0][-1500:]}, False)
         for cid, term, o_raw, o_e, idmap, desc, emu_differs, open_pending in cases:
             got = evals.get(cid)
-            if got is None or len(got) != 5:
+            if got is None or len(got) != 9:
                 if emu_differs:
                     ck.violation("C01: the emulated backend disagrees with kernel RESOLVE_IN_ROOT resolution", dict(desc, library_emulated=o_e))
                 continue
@@ -184,16 +210,20 @@ def run(ck):
             stats['wf_trees'] = stats.get('wf_trees', 0) + got[4]
             # the recorded difference F-H: the kernel's walk runs out of its 40-link budget, the emulated one (127) does not
             fh_class = got[0] == 2 and got[2] != 2
-            if emu_differs or open_pending:
-                kf = [f for f in ck.known if f["id"] == "F-H-linkbudget"]
+            fh_open = got[5] == 2 and got[7] != 2          # the same class for the open's own walk mode
+            kf = [f for f in ck.known if f["id"] == "F-H-linkbudget"]
+            if emu_differs:
                 if kf and fh_class and o_raw == ("err", 40):
                     stats["known_FH"] += 1
                     ck.known_finding(kf[0]["id"], kf[0]["what"])
                 else:
-                    if emu_differs:
-                        ck.violation("C01: the emulated backend disagrees with kernel RESOLVE_IN_ROOT resolution", dict(desc, library_emulated=o_e))
-                    for (_, a, b_, fl, d2) in open_pending:
-                        ck.violation("C01: open_subpath and raw openat2 with the same flags disagree (emulated)", dict(d2, flags=fl, library=a, raw=b_))
+                    ck.violation("C01: the emulated backend disagrees with kernel RESOLVE_IN_ROOT resolution", dict(desc, library_emulated=o_e))
+            for (_, a, b_, fl, d2) in open_pending:
+                if kf and fh_open:
+                    stats["known_FH"] += 1
+                    ck.known_finding(kf[0]["id"], kf[0]["what"])
+                else:
+                    ck.violation("C01: open_subpath and raw openat2 with the same flags disagree (emulated)", dict(d2, flags=fl, library=a, raw=b_))
             stats["kernel_vs_model"] += 1
             if mk_ != o_raw:
                 ck.violation("T2: the reference walk (kwalk) disagrees with the running kernel's openat2 -- the model of the kernel is wrong",
@@ -230,7 +260,7 @@ def run(ck):
         "samples": samples or [{"note": "none"}],
         "kernel_vs_reference_model": stats["kernel_vs_model"], "library_vs_kernel": stats["lib_vs_kernel"] * 2,
         "emulated_vs_model": stats["emu_vs_model"], "open_subpath_compared": stats["open"], "readlink_compared": stats["readlink"],
-        "known_link_budget_cases": stats["known_FH"], "model_trees_satisfying_wf": stats.get("wf_trees", 0), "kernel_outcome_histogram": stats["outcomes"],
+        "jobs_with_eloop_or_eagain_asked_again_alone": stats["asked_again_alone"], "known_link_budget_cases": stats["known_FH"], "model_trees_satisfying_wf": stats.get("wf_trees", 0), "kernel_outcome_histogram": stats["outcomes"],
         "static_kernel_traces_validated": stats.get("static_traces", 0), "static_kernel_calls_compared": stats.get("static_calls", 0),
         "traces_validated_against_impl": stats["kernel_vs_model"] + stats["emu_vs_model"] + stats.get("static_traces", 0),
         "disagreements_checked": 0,
